@@ -118,6 +118,19 @@ def gen(rng):
                 if rng.random() < 0.5:
                     ob.pop("stdev", None)
                     ob["dist"] = round(rng.uniform(0.1, 3.0), 3)
+    # instrument / target heights on observations they do not influence (angles: from_dh, bs_dh, fs_dh; directions, distances):
+    # the export must still carry them
+    for c in net["clusters"]:
+        if c["kind"] == "obs":
+            for ob in c["obs"]:
+                if ob["t"] == "angle" and rng.random() < 0.5:
+                    ob["bs_dh"] = rng.choice([1.3, 2.0])
+                    ob["fs_dh"] = rng.choice([1.4, 1.75])
+                    if rng.random() < 0.5:
+                        ob["from_dh"] = 1.55
+                elif ob["t"] in ("direction", "distance") and "from_dh" not in ob and rng.random() < 0.15:
+                    ob["from_dh"] = 1.5
+                    ob["to_dh"] = 1.8
     if dim != 1:
         conv = rng.choice(["ne-left", "ne-right", "ne-right", "sw-left", "en-left", "nw-left", "nw-left"])
         if conv != "ne-left":
